@@ -113,6 +113,7 @@ class Env:
     def __init__(self, hier=(), predlog=None):
         self.names = dict(self.BUILTINS)
         self.predlog = predlog or PredLog()
+        self.predlog = self.predlog
         self._dep_cache = {}
         self._cc_cache = {}
 
@@ -127,10 +128,18 @@ class Env:
         class Shape(abc.ABC):
             pass
 
+        plog = self.predlog
+
         class Hook(abc.ABC):
             @classmethod
             def __subclasshook__(cls, C):
                 if cls is Hook:
+                    # a plain-Python subclass hook is a user hook too (C18 fault source, C20 counter)
+                    plog.class_calls += 1
+                    if plog.fault_at is not None:
+                        plog.fault_count += 1
+                        if plog.fault_count == plog.fault_at:
+                            raise HookFault("Hook.__subclasshook__")
                     return True if hasattr(C, "hooked") else NotImplemented
                 return NotImplemented
 
